@@ -828,7 +828,7 @@ LEMMAS = [Lemma("itoh", lemma_itoh), Lemma("edge-loop-step", lemma_main_loop, us
 
 TRUSTED = [
     "torch 1-D tensor element get/set = array select/store; torch.arange / zeros / where pointwise semantics",
-    "path induction: vertices connected by processed edges share a union-find root (edge-endpoints-share-root + merged-pairs-stay-merged are the induction step)",
+    "path induction (adjacent pixels share a root => one root, hence one constant, per connected region) is lemmas/discrete.lean D2, proved from Mathlib in the thorough tier; trusted: that the Lean statement (equivalence closure of ADJ) is the 'connected region' of the property",
     "pyvc engine, z3, cvc5",
 ]
 ASSUMPTIONS = ["A1 floats are reals", "A2 int64/float32 index stacking in _build_edges exact below 2^24 pixels (not proved)",
@@ -837,8 +837,9 @@ ASSUMPTIONS = ["A1 floats are reals", "A2 int64/float32 index stacking in _build
                "from the real source; the driver then proves 'adjacent valid pixels share a root'; what remains trusted is path induction from "
                "adjacency to connected regions",
                "_pixel_reliability only orders the edges (result independent of it); its values are not specified",
-               "values.RowMajor axioms (row-major bijection for symbolic H x W) are theorems of integer division, assumed",
+               "values.RowMajor axioms (row-major bijection for symbolic H x W): proved for lin = i*W+j, unr = (v/W, v%W) in lemmas/discrete.lean D1 (thorough tier); the SMT obligations use them as axioms",
                "boolean-mask indexing x[m] (1-d) = order-preserving enumeration of the true positions, shared selection map per mask object; argsort = bijection (trusted torch contracts)"]
+LEAN_FILES = ["discrete.lean"]
 EXPLANATION = "VCs from the real source of UnionFindPhase/_final_offsets/_find_wrap/_wrap_to_pi with ghost root/potential/depth functions; property lemmas from the contracts"
 
 # ------------------------------------------------------------------------------------------------
